@@ -134,7 +134,22 @@ fn operands(prop: &str, op: u16, sl: L, dl: L, mode: usize, ia: Ing, ib: Ing, r1
                     let y = Big::from_u128(r1 & ((1u128 << yb) - 1));
                     let sq = y.mul(&y);
                     let x = if (r2 >> 32) & 1 == 0 { sq.shr_floor(sl.f.min(2 * yb)) } else { sq };
-                    sl.wrap(&x.add_i64(small(r1 >> 64).clamp(-1, 1)))
+                    if (r2 >> 33) & 3 == 0 && sl.f >= 2 {
+                        // (k/2)^2 -+ k ulp: X 2^f + 1 is a perfect square there, so the integer Newton iteration
+                        // stops decreasing one step early / ends in a two-cycle
+                        let k = 1 + (r1 >> 70) % (1u128 << (1 + (r2 >> 36) % 12));
+                        let kb = Big::from_u128(k);
+                        let x = kb.mul(&kb).shl(sl.f - 2);
+                        let x = match (r2 >> 50) % 4 {
+                            0 => x.add(&kb),
+                            1 => x.sub(&kb),
+                            2 => x.add_i64(1),
+                            _ => x.add_i64(-1),
+                        };
+                        sl.wrap(&x)
+                    } else {
+                        sl.wrap(&x.add_i64(small(r1 >> 64).clamp(-1, 1)))
+                    }
                 }
                 8 | 9 => {
                     // branch boundaries of the bit-by-bit logarithm: x = 2^(k + j/2^m), where a repeated squaring
@@ -156,6 +171,25 @@ fn operands(prop: &str, op: u16, sl: L, dl: L, mode: usize, ia: Ing, ib: Ing, r1
                     let t = [sl.raw_max(), sl.raw_max() - 1, sl.raw_max() / 2, 1, 2, 3, one, one * 2, one * 4 & sl.mask(), sl.raw_min(), 0][(r1 % 11) as usize];
                     t & sl.mask()
                 }
+            };
+            // sqrt and log2 work on the reciprocal of operands below one: aim the same special values at that
+            // working operand — x with floor(2^(2F) / x) = the special value (exists for some layouts only)
+            let a = if (r2 >> 110) & 3 == 0 && dl.f >= sl.f {
+                let up = dl.f - sl.f;
+                let ad = sl.val(a).shl(up);
+                if ad > Big::pow2(dl.f) {
+                    let xd = Big::pow2(2 * dl.f).div_trunc(&ad).add_i64(((r2 >> 112) & 1) as i64);
+                    let xs = xd.shr_floor(up);
+                    if xs.is_pos() && sl.fits(&xs) {
+                        sl.wrap(&xs)
+                    } else {
+                        a
+                    }
+                } else {
+                    a
+                }
+            } else {
+                a
             };
             (a, 0)
         }
